@@ -66,8 +66,13 @@ class C18(BtProp):
                         ops.append("setbb /%s_done %s" % (nm.lower().replace("~", "_"), rng.choice(["b:0", "i:0", "n"])))
             elif kind == "oneshot":
                 sub = small_subtree(rng, 100)
-                header = "idiom oneshot %s %s %s %s" % (rng.choice(["/done", "/os/flag"]), "-", rng.choice("01"),
-                                                        spec_str(sub))
+                if rng.random() < 0.3:
+                    # the completion flag is an attribute two levels inside an object on the blackboard
+                    header = "idiom oneshot /o q.st %s %s" % (rng.choice("01"), spec_str(sub))
+                    ops.append("setbb /o o{q=o{r=i:0}}")
+                else:
+                    header = "idiom oneshot %s %s %s %s" % (rng.choice(["/done", "/os/flag"]), "-", rng.choice("01"),
+                                                            spec_str(sub))
                 root = 1
             elif kind == "oneshotdec":
                 sub = small_subtree(rng, 3)
@@ -87,6 +92,9 @@ class C18(BtProp):
                 shared = rng.random() < 0.35      # all conditions test ONE variable against different values
                 if shared:
                     conds = " ".join("/m - eq i:%d" % j for j in range(k))
+                elif k == 2 and rng.random() < 0.25:
+                    # conditions on attributes of one object (nested variable names, one and two levels deep)
+                    conds = "/o p eq i:1 /o q.r eq i:0"
                 elif rng.random() < 0.3:
                     # threshold conditions (non-commutative operators): variable > 0 / variable < 2 alternating
                     conds = " ".join("/c%d - %s" % (j, "gt i:0" if j % 2 == 0 else "lt i:1") for j in range(k))
@@ -95,8 +103,11 @@ class C18(BtProp):
                 subs = " ".join(spec_str(small_subtree(rng, 100 + 10 * j)) for j in range(k))
                 header = "idiom eitheror /eo %d %s %s" % (k, conds, subs)
                 root = 1
+                OBJS = ["o{p=i:1,q=o{r=i:1}}", "o{p=i:2,q=o{r=i:0}}", "o{p=i:1,q=o{r=i:0}}", "o{p=i:0,q=o{r=i:2}}", "o{p=i:1}"]
                 if shared:
                     ops.append("setbb /m i:%d" % rng.randrange(k + 1))
+                elif "/o p eq" in conds:
+                    ops.append("setbb /o %s" % rng.choice(OBJS))
                 else:
                     for j in range(k):
                         ops.append("setbb /c%d i:%d" % (j, rng.choice([0, 1])))
@@ -107,6 +118,8 @@ class C18(BtProp):
                     ops.append("stop %d" % root)
                 elif r < 0.44 and r >= 0.4 and kind == "eitheror" and not shared:
                     ops.append("unsetbb /c%d" % rng.randrange(k))      # a condition variable disappears (an event flag)
+                elif r < 0.4 and kind == "eitheror" and "/o p eq" in header:
+                    ops.append("setbb /o %s" % rng.choice(OBJS))
                 elif r < 0.4 and kind in ("eitheror", "eitheror2"):
                     if kind == "eitheror" and shared:
                         ops.append("setbb /m i:%d" % rng.randrange(k + 1))
